@@ -235,6 +235,11 @@ var shapes = []shape{
 	{"dotdot-deep-escape", func(t string) string { return dirOf(t) + "/../../../" + baseOf(t) }},
 	{"absolute-into-sandbox", func(t string) string { return SB + "/parent/" + baseOf(t) }},
 	{"dotdot-in-name", func(t string) string { return dirOf(t) + "/.." + baseOf(t) }},
+	// rooted paths whose first elements climb: cleaning a rooted path silently drops them, cleaning
+	// the same path after its leading separators were trimmed does not
+	{"absolute-dotdot-escape", func(t string) string { return "/../../" + baseOf(t) }},
+	{"absolute-dotdot-then-target", func(t string) string { return "/../" + t }},
+	{"absolute-double-separator-dotdot", func(t string) string { return "//../../" + t }},
 }
 
 // relations of a plugin path to the other sources.
